@@ -441,6 +441,7 @@ func (c *case08) render(res *sim.SchedResult) any {
 }
 
 func propC08(cx *sim.Ctx) {
+	sim.Declare([]string{"pool_get_other_tasks_instance", "pool_get_own_instance", "pool_get_new", "pool_put_dropped", "lock_wait", "task_switches", "race_reports"}, []string{})
 	t := cx.T
 	c08Fixtures()
 	c := &case08{}
